@@ -58,7 +58,10 @@ pub fn precision(p: u64) -> u32 { let mut k = 0; let mut q: u128 = 1; while q * 
 pub fn local_smith(m: &[Vec<BigInt>], p: u64) -> (Vec<u32>, usize) {
     let kk = precision(p);
     let q: u64 = (p as u128).pow(kk) as u64;
-    let mut a = reduce(m, q);
+    local_smith_u64(reduce(m, q), p, q)
+}
+
+pub fn local_smith_u64(mut a: Vec<Vec<u64>>, p: u64, q: u64) -> (Vec<u32>, usize) {
     let rows = a.len(); let cols = a.first().map(|r| r.len()).unwrap_or(0);
     let val = |mut x: u64| -> u32 { if x == 0 { return u32::MAX } let mut v = 0; while x % p == 0 { x /= p; v += 1; } v };
     let mut vals = vec![];
@@ -129,6 +132,76 @@ pub fn prime_factors_small(d: &BigInt, bound: u64) -> Vec<u64> {
     out
 }
 
+// ---------------------------------------------------------------------------
+// sparse versions (rows as maps col -> value), used for the cube-of-resolutions differentials
+
+use std::collections::{BTreeMap, BTreeSet};
+
+pub type SpRows = Vec<BTreeMap<usize, BigInt>>;
+
+/// eliminate with unit pivots (entries not divisible by p) over Z/q, q = p^K; returns (#unit pivots, dense remainder)
+fn sparse_unit_phase(rows: &SpRows, ncols: usize, p: u64, q: u64) -> (usize, Vec<Vec<u64>>) {
+    let qb = BigInt::from(q);
+    let mut a: Vec<BTreeMap<usize, u64>> = rows.iter().map(|r| r.iter().filter_map(|(c, v)| { let x = v.mod_floor(&qb).to_u64().unwrap(); if x == 0 { None } else { Some((*c, x)) } }).collect()).collect();
+    let m = a.len();
+    let mut col_rows: Vec<BTreeSet<usize>> = vec![BTreeSet::new(); ncols];
+    for (i, r) in a.iter().enumerate() { for c in r.keys() { col_rows[*c].insert(i); } }
+    let mut order: Vec<usize> = (0..m).collect();
+    order.sort_by_key(|i| a[*i].len());
+    let mut active = vec![true; m];
+    let mut pivots = 0usize;
+    // repeat passes until no unit entry is left in an active row
+    loop {
+        let mut progressed = false;
+        for &r in &order {
+            if !active[r] || a[r].is_empty() { continue }
+            // unit entry with the smallest column count
+            let Some((&c, &u)) = a[r].iter().filter(|(_, v)| **v % p != 0).min_by_key(|(c, _)| col_rows[**c].len()) else { continue };
+            let uinv = inv_mod(u, q);
+            let prow: Vec<(usize, u64)> = a[r].iter().map(|(c, v)| (*c, *v)).collect();
+            let targets: Vec<usize> = col_rows[c].iter().cloned().filter(|i| *i != r).collect();
+            for i in targets {
+                let f = mulmod(a[i][&c], uinv, q);
+                for (cc, v) in &prow {
+                    let sub = mulmod(f, *v, q);
+                    let cur = a[i].get(cc).cloned().unwrap_or(0);
+                    let nv = submod(cur, sub, q);
+                    if nv == 0 { if cur != 0 { a[i].remove(cc); col_rows[*cc].remove(&i); } }
+                    else { if cur == 0 { col_rows[*cc].insert(i); } a[i].insert(*cc, nv); }
+                }
+            }
+            for (cc, _) in &prow { col_rows[*cc].remove(&r); }
+            a[r].clear(); active[r] = false;
+            pivots += 1; progressed = true;
+        }
+        if !progressed { break }
+    }
+    let rem_rows: Vec<usize> = (0..m).filter(|i| active[*i] && !a[*i].is_empty()).collect();
+    let mut cols: Vec<usize> = rem_rows.iter().flat_map(|i| a[*i].keys().cloned()).collect(); cols.sort(); cols.dedup();
+    let cidx: std::collections::HashMap<usize, usize> = cols.iter().enumerate().map(|(i, c)| (*c, i)).collect();
+    let dense: Vec<Vec<u64>> = rem_rows.iter().map(|i| { let mut v = vec![0u64; cols.len()]; for (c, x) in &a[*i] { v[cidx[c]] = *x; } v }).collect();
+    (pivots, dense)
+}
+
+pub fn rank_mod_sparse(rows: &SpRows, ncols: usize, q: u64) -> usize {
+    let (piv, dense) = sparse_unit_phase(rows, ncols, q, q);
+    debug_assert!(dense.is_empty());
+    piv + rank_mod_u64(dense, q)
+}
+
+pub fn rank_q_sparse(rows: &SpRows, ncols: usize) -> usize { BIG_PRIMES.iter().map(|q| rank_mod_sparse(rows, ncols, *q)).max().unwrap() }
+
+/// sorted p-adic valuations (< K) of the invariant factors
+pub fn local_smith_sparse(rows: &SpRows, ncols: usize, p: u64) -> Vec<u32> {
+    let kk = precision(p);
+    let q: u64 = (p as u128).pow(kk) as u64;
+    let (piv, dense) = sparse_unit_phase(rows, ncols, p, q);
+    let mut vals = vec![0u32; piv];
+    vals.extend(local_smith_u64(dense, p, q).0);
+    vals.sort();
+    vals
+}
+
 #[cfg(test)]
 mod tests {
     use super::*;
@@ -158,6 +231,9 @@ mod tests {
             for p in [2u64, 3, 5, 7] {
                 let (vals, _) = local_smith(&big, p);
                 assert_eq!(vals.len(), ds.len());
+                let sp: SpRows = big.iter().map(|r| r.iter().enumerate().filter(|(_, v)| !v.is_zero()).map(|(c, v)| (c, v.clone())).collect()).collect();
+                assert_eq!(local_smith_sparse(&sp, n, p), vals, "sparse vs dense, p = {p}");
+                assert_eq!(rank_q_sparse(&sp, n), ds.len());
                 let pos: Vec<u32> = vals.into_iter().filter(|v| *v > 0).collect();
                 assert_eq!(pos, valuations(&ds, p), "p = {p}, A = {}", a.show());
             }
